@@ -42,7 +42,7 @@ pub fn parse_get_variable<R: Read>(reader: &mut Reader<R>) -> Result<Rc<dyn Get>
     let mut name = Vec::new();
     loop {
         match reader.next()? {
-            None | Some(b' ' | b'\n' | b'\t' | b'\r' | b')' | b',') => {
+            None | Some(b' ' | b'\n' | b'\t' | b'\r' | b')' | b',' | b'=') => {
                 break;
             }
             Some(ch) => name.push(ch),
